@@ -17,6 +17,8 @@ import (
 	"strconv"
 	"strings"
 	"sync"
+	"math/rand"
+	"runtime"
 	"time"
 
 	"github.com/hashicorp/serf/serf"
@@ -38,11 +40,18 @@ type Op struct {
 	Dir   string `json:"dir"`   // cut: c2s | s2c
 	After int    `json:"after"` // cut: bytes that still pass in that direction
 	Ms    int    `json:"ms"`
+	Us    int    `json:"us"`   // subn / unsubn: microseconds between two of them
+	Seed  int64  `json:"seed"` // unsubn: order (0 = ascending)
 }
 
 type Scenario struct {
-	ID  string `json:"id"`
-	Ops []Op   `json:"ops"`
+	ID string `json:"id"`
+	// Pre: sub / subn operations before the nodes know each other (the first handshake carries them as full state)
+	Pre []Op `json:"pre,omitempty"`
+	// Race: operations run from a second goroutine that starts together with the join (against the first handshake and its
+	// full-state resynchronisation), Ms apart in microseconds (field us)
+	Race []Op `json:"race,omitempty"`
+	Ops  []Op `json:"ops"`
 }
 
 type Event map[string]interface{}
@@ -211,6 +220,74 @@ func run(sc *Scenario) (evs []Event, fatal string) {
 	defer pln.Close()
 	defer A.VerifStopPeers()
 	defer B.VerifStopPeers()
+	ctx := context.Background()
+	subHook := A.OnSubscribedWrapper(func(context.Context, server.Client, *gmqtt.Subscription) {})
+	unsubHook := A.OnUnsubscribedWrapper(func(context.Context, server.Client, string) {})
+	doSub := func(c, t string) {
+		rec.log(Event{"e": "emit", "kind": "sub", "c": c, "t": t})
+		sub := &gmqtt.Subscription{TopicFilter: t}
+		if strings.HasPrefix(t, "$share/") {
+			if p := strings.SplitN(t, "/", 3); len(p) == 3 {
+				sub = &gmqtt.Subscription{ShareName: p[1], TopicFilter: p[2]}
+			}
+		}
+		aSubs.Subscribe(c, sub)
+		subHook(ctx, &fakeMQTTClient{opts: server.ClientOptions{ClientID: c}}, sub)
+	}
+	doUnsub := func(c, t string) {
+		rec.log(Event{"e": "emit", "kind": "unsub", "c": c, "t": t})
+		aSubs.Unsubscribe(c, t)
+		unsubHook(ctx, &fakeMQTTClient{opts: server.ClientOptions{ClientID: c}}, t)
+	}
+	// subn / unsubn: n topics <t>/000 ... (unsubn in the order given by seed), us microseconds apart
+	many := func(op Op) {
+		order := make([]int, op.N)
+		for i := range order {
+			order[i] = i
+		}
+		if op.Seed != 0 {
+			rand.New(rand.NewSource(op.Seed)).Shuffle(len(order), func(i, j int) { order[i], order[j] = order[j], order[i] })
+		}
+		for _, i := range order {
+			t := fmt.Sprintf("%s/%03d", op.T, i)
+			if op.Op == "subn" {
+				doSub(op.C, t)
+			} else {
+				doUnsub(op.C, t)
+			}
+			if op.Us > 0 {
+				for t0 := time.Now(); time.Since(t0) < time.Duration(op.Us)*time.Microsecond; {
+					runtime.Gosched()
+				}
+			}
+		}
+	}
+	for _, op := range sc.Pre {
+		switch op.Op {
+		case "sub":
+			doSub(op.C, op.T)
+		case "subn":
+			many(op)
+		default:
+			return rec.ev, "pre: unknown op " + op.Op
+		}
+	}
+	raceDone := make(chan struct{})
+	go func() {
+		defer close(raceDone)
+		for _, op := range sc.Race {
+			switch op.Op {
+			case "sub":
+				doSub(op.C, op.T)
+			case "unsub":
+				doUnsub(op.C, op.T)
+			case "subn", "unsubn":
+				many(op)
+			case "sleep":
+				time.Sleep(time.Duration(op.Ms) * time.Millisecond)
+			}
+		}
+	}()
 	// B knows A (its own stream towards A goes to A's server directly), A reaches B through the proxy
 	B.VerifNodeJoinAddr("A", aAddr)
 	A.VerifNodeJoinAddr("B", px.ln.Addr().String())
@@ -223,27 +300,21 @@ func run(sc *Scenario) (evs []Event, fatal string) {
 		}
 		time.Sleep(5 * time.Millisecond)
 	}
-	ctx := context.Background()
-	subHook := A.OnSubscribedWrapper(func(context.Context, server.Client, *gmqtt.Subscription) {})
-	unsubHook := A.OnUnsubscribedWrapper(func(context.Context, server.Client, string) {})
+	select {
+	case <-raceDone:
+	case <-time.After(30 * time.Second):
+		return rec.ev, "the operations racing with the join did not finish within 30 s"
+	}
 	msgHook := A.OnMsgArrivedWrapper(func(context.Context, server.Client, *server.MsgArrivedRequest) error { return nil })
 	var emitted []int
 	for _, op := range sc.Ops {
 		switch op.Op {
 		case "sub":
-			rec.log(Event{"e": "emit", "kind": "sub", "c": op.C, "t": op.T})
-			sub := &gmqtt.Subscription{TopicFilter: op.T}
-			if strings.HasPrefix(op.T, "$share/") {
-				if p := strings.SplitN(op.T, "/", 3); len(p) == 3 {
-					sub = &gmqtt.Subscription{ShareName: p[1], TopicFilter: p[2]}
-				}
-			}
-			aSubs.Subscribe(op.C, sub)
-			subHook(ctx, &fakeMQTTClient{opts: server.ClientOptions{ClientID: op.C}}, sub)
+			doSub(op.C, op.T)
 		case "unsub":
-			rec.log(Event{"e": "emit", "kind": "unsub", "c": op.C, "t": op.T})
-			aSubs.Unsubscribe(op.C, op.T)
-			unsubHook(ctx, &fakeMQTTClient{opts: server.ClientOptions{ClientID: op.C}}, op.T)
+			doUnsub(op.C, op.T)
+		case "subn", "unsubn":
+			many(op)
 		case "msg":
 			rec.log(Event{"e": "emit", "kind": "msg", "n": op.N})
 			emitted = append(emitted, op.N)
